@@ -32,6 +32,11 @@ class Pool:
     bound: int = 100
     draws: list = field(default_factory=list)   # (name, type, [[value per draw] per observation])
     ndraws: int = 1
+    panel: list = field(default_factory=list)   # individual 1..NU of every observation (panel data), or empty
+
+    @property
+    def nunits(self):
+        return max(self.panel) if self.panel else self.nrows
 
     @property
     def nrows(self):
@@ -44,7 +49,8 @@ class Pool:
     def free_names_sorted(self):
         return sorted(b[0] for b in self.betas if b[1])
 
-    def module(self, name: str = 'MCExprGen', thin=(1,)) -> str:
+    def module(self, name: str = 'MCExprGen', thin=(1,), start=None) -> str:
+        """start: list of proposed formulas, each a list of operator nodes dict(op, kids, num=(n, d), keys=[..])"""
         thin = ', '.join(str(t) for t in thin)
         def leaf(l):
             if l[0] == 'num':
@@ -81,8 +87,21 @@ G_NaryOps == {sset(self.naryops)}
 G_Exponents == {{{", ".join(tla_q(q(e)) for e in self.exponents)}}}
 G_KeySets == {ks}
 G_Thin == <<{thin}>>
+G_Panel == <<{', '.join(str(u) for u in self.panel)}>>
+G_Start == {{{', '.join(self._start(f) for f in (start or [[]]))}}}
 ====
 '''
+
+    @staticmethod
+    def _start(ops) -> str:
+        if not ops:
+            return 'G_Leaves'
+        def node(n):
+            num = n.get('num', (0, 1))
+            kids = ', '.join(str(k) for k in n['kids'])
+            keys = ', '.join(str(k) for k in n.get('keys', []))
+            return f'Node("{n["op"]}", <<{kids}>>, Q({num[0]}, {num[1]}), 0, <<{keys}>>)'
+        return 'G_Leaves \\o <<' + ', '.join(node(n) for n in ops) + '>>'
 
     def cfg(self, max_ops: int, invariants: list[str], constraint: str | None = None, thin=(1,), salt: int = 0) -> str:
         inv = '\n'.join(f'INVARIANT {i}' for i in invariants)
@@ -93,6 +112,8 @@ CONSTANTS
  VarTab <- G_VarTab
  DrawTab <- G_DrawTab
  NDraws = {self.ndraws}
+ Panel <- G_Panel
+ Start <- G_Start
  NRows = {self.nrows}
  NPoints = {self.npoints}
  UnOps <- G_UnOps
@@ -161,6 +182,18 @@ def pool_mc(**kw) -> Pool:
     )
 
 
+def pool_panel(**kw) -> Pool:
+    """panel data with draws (the shape of a mixed model on panel data: log(MonteCarlo(PanelLikelihoodTrajectory(f)))):
+    4 observations of 2 individuals (3 + 1), 3 draws per individual"""
+    return Pool(
+        betas=BETAS[:2], vars=[('x', ['1', '2', '1/2', '3'])],
+        leaves=[('beta', 1), ('beta', 2), ('var', 1), ('draw', 1)],
+        unops=['MonteCarlo', 'PanelLikelihoodTrajectory', 'exp', 'log'], binops=['Plus', 'Times'], naryops=[],
+        draws=[('zeta', 'TZ', [['1', '2', '1/2'], ['3', '1', '2']])],
+        ndraws=3, panel=[1, 1, 1, 2], **kw,
+    )
+
+
 def pool_mid(**kw) -> Pool:
     return Pool(
         betas=BETAS, vars=VARS,
@@ -176,7 +209,11 @@ def database(pool: Pool, name: str = 'vb'):
     import biogeme.database as db
 
     df = pd.DataFrame({n: [float(q(v)) for v in vals] for n, vals in pool.vars})
+    if pool.panel:
+        df['unit_id'] = [10 * u for u in pool.panel]
     d = db.Database(name, df)
+    if pool.panel:
+        d.panel('unit_id')
     if pool.draws:
         def gen(vals):
             table = np.array([[float(q(v)) for v in obs] for obs in vals])
@@ -251,7 +288,7 @@ class Builder:
             return UnaryMinus(k[0])
         if op == 'PowerConstant':
             return PowerConstant(k[0], float(F(n['num'][0], n['num'][1])))
-        if op in ('exp', 'log', 'logzero', 'sin', 'cos', 'bioNormalCdf', 'MonteCarlo'):
+        if op in ('exp', 'log', 'logzero', 'sin', 'cos', 'bioNormalCdf', 'MonteCarlo', 'PanelLikelihoodTrajectory'):
             return getattr(ex, op)(k[0])
         if op == 'bioMultSum':
             return ex.bioMultSum(k)
@@ -280,7 +317,7 @@ class Builder:
         """The pure-Python evaluator defines get_value for this node and all descendants
         (table B.2 of DESIGN.md) and no data variable occurs."""
         n = self.node(i)
-        if n['op'] in ('Variable', 'BelongsTo', 'bioLinearUtility', 'bioNormalCdf', 'MonteCarlo', 'bioDraws'):
+        if n['op'] in ('Variable', 'BelongsTo', 'bioLinearUtility', 'bioNormalCdf', 'MonteCarlo', 'bioDraws', 'PanelLikelihoodTrajectory'):
             return False
         return all(self.py_accepts(j) for j in n.get('kids', []))
 
